@@ -848,6 +848,14 @@ def deffault_gen(tier, shard, nshards):
                     if i % nshards == shard:
                         yield {"kind": kind, "exc": exc, "filter": flt, "route": route}
                     i += 1
+    # deleting a STORED value of a listened-to trait computes the replacement default for the notification: the stored
+    # object's reference count must not drift whether that succeeds or raises
+    for kind in ("any-method-listened", "list-method-listened"):
+        for exc in DF_EXC:
+            for flt in ("default", "error"):
+                if i % nshards == shard:
+                    yield {"kind": kind, "exc": exc, "filter": flt, "route": "del-stored"}
+                i += 1
 
 
 def deffault_run(case, ctx):
@@ -865,7 +873,12 @@ def deffault_run(case, ctx):
 
         def boom(*a):
             raise inst
-    if kind == "method":
+    stored = V() if kind == "any-method-listened" else [V()]
+    if kind == "any-method-listened":
+        cls = type("DF", (HasTraits,), {"x": Any, "_x_default": lambda self: boom(), "_x_changed": lambda self: None})
+    elif kind == "list-method-listened":
+        cls = type("DF", (HasTraits,), {"x": List(Any), "_x_default": lambda self: boom(), "_x_changed": lambda self: None})
+    elif kind == "method":
         cls = type("DF", (HasTraits,), {"x": Int, "_x_default": lambda self: boom()})
     elif kind == "factory":
         cls = type("DF", (HasTraits,), {"x": Any(factory=boom)})
@@ -895,6 +908,9 @@ def deffault_run(case, ctx):
                     o.trait_get("x")
                 elif case["route"] == "hasattr":
                     hasattr(o, "x")
+                elif case["route"] == "del-stored":
+                    o.x = stored
+                    del o.x
                 else:
                     o.x = 3
             except BaseException as e:
@@ -916,21 +932,26 @@ def deffault_run(case, ctx):
         gc.collect()
         if isinstance(inst, BaseException):
             inst.__traceback__ = None
+    watched = stored if kind == "any-method-listened" else stored[0]
     op()
     clean()
-    r0 = sys.getrefcount(inst)
+    r0, s0 = sys.getrefcount(inst), sys.getrefcount(watched)
     for _ in range(10):
         op()
     clean()
-    r1 = sys.getrefcount(inst)
+    r1, s1 = sys.getrefcount(inst), sys.getrefcount(watched)
     for _ in range(30):
         op()
     clean()
-    r2 = sys.getrefcount(inst)
+    r2, s2 = sys.getrefcount(inst), sys.getrefcount(watched)
     if r1 - r0 or r2 - r1:
         kindb = "over-release" if (r1 - r0 < 0 or r2 - r1 < 0) else "leak"
         ctx.fail("refcount/" + kindb, "%r: the reference count of the object the default callback raises / returns changed by %+d after 10 and %+d "
                  "after 30 more repetitions (expected 0)" % (case, r1 - r0, r2 - r1))
+    if case["route"] == "del-stored" and (s1 - s0 or s2 - s1):
+        kindb = "over-release" if (s1 - s0 < 0 or s2 - s1 < 0) else "leak"
+        ctx.fail("refcount/" + kindb, "%r: the reference count of the STORED value that was deleted (or not, when the default raised) changed "
+                 "by %+d after 10 and %+d after 30 more repetitions (expected 0)" % (case, s1 - s0, s2 - s1))
 
 
 # ----------------------------------------------------------------------------- the cTrait object's own attribute API
@@ -966,6 +987,7 @@ def _overwrite_ops():
 
 OVERWRITE = ["handler", "post_setattr", "clone-self", "clone-other", "property_fields", "property_fields-validate", "delegate-name",
              "delegate-prefix", "set_validate", "set_default_value", "__dict__"]
+DV_EXTRA = [(int, 5, 6), (int, (), None), (int, (), {}), (len, ([],), None), (int,), (1, 2, 3), (int, [], {})]
 PREFIX_VALUES = ["<missing>", "p_", "", 5, None, b"p_", ("p_",), 1.5]
 
 
@@ -1001,6 +1023,11 @@ def ctapi_gen(tier, shard, nshards):
         cases.append({"what": "rawkind", "kind": k})
     for variant in ("non-hastraits", "none", "missing", "cycle", "ok"):
         cases.append({"what": "base_trait", "variant": variant})
+    # set_default_value(kind, value) with every kind number x odd values (accepted or refused), then the definition is used
+    for base in ("raw", "int", "list"):
+        for kind_ in range(-1, 12):
+            for vi in range(len(WEIRD) + len(DV_EXTRA)):
+                cases.append({"what": "setdefault", "base": base, "kind": kind_, "val": vi})
     # the same field of one cTrait written again and again: only the last object written may stay referenced
     for target in OVERWRITE:
         cases.append({"what": "overwrite", "target": target})
@@ -1077,6 +1104,22 @@ def ctapi_run(case, ctx):
             else:
                 v = WEIRD[case["val"]]
                 setattr(ct, case["attr"], v() if v is object else v)
+        except RecursionError:
+            raise
+        except SystemError as e:
+            ctx.fail("systemerror/ctrait-api", "%r raised %r" % (case, e))
+        except Exception:
+            ctx.label("refused")
+        e = stale_error()
+        if e is not None:
+            ctx.fail("stale-error/ctrait-api", "%r left the error indicator set: %r" % (case, e))
+        _exercise(ct)
+    elif what == "setdefault":
+        ct = _ct_make(case["base"])
+        vals = WEIRD + DV_EXTRA
+        v = vals[case["val"]]
+        try:
+            ct.set_default_value(case["kind"], v() if v is object else v)
         except RecursionError:
             raise
         except SystemError as e:
